@@ -133,6 +133,8 @@ def _render_task(rng, p: Proj, tid: str, path: list[str], leaf_ids: list[str], r
         amt = rng.randrange(1, 41) if unit_h else rng.randrange(1, 6)
         if rng.random() < opts.get("p_frac", 0.1):
             lines.append(f"{ind}effort {amt}.5{'h' if unit_h else 'd'}")
+        elif rng.random() < 0.08:
+            lines.append(f"{ind}effort {_pick(rng, ['0.25', '0.5', '0.75', '1.25', '1.5', '2.25', '0.1'])}h")  # sub-slot work
         else:
             lines.append(f"{ind}effort {amt}{'h' if unit_h else 'd'}")
         alloc = [_pick(rng, res_ids)]
@@ -372,6 +374,12 @@ def gen_project(rng, reports: str = "mixed", size: str = "small") -> dict:
         p.tasks.append(f'task fob "FOB" {{\n  effort {rng.randrange(4, 20)}h\n  allocate fx {{ alternative {alts} }}\n  start {s0.isoformat()}\n}}')
         p.tasks.append('task foc "FOC" {\n  effort 3h\n  allocate fy\n  depends fob\n}')
         p.tags.add("failover")
+    if rng.random() < 0.1 and res_ids:
+        # sub-slot chain: a predecessor that ends in the middle of a slot, successors needing less than a slot
+        r = res_ids[0]
+        a, b, c = _pick(rng, ["1.5", "2.25", "0.5", "3.75"]), _pick(rng, ["0.25", "0.1", "0.5", "0.75"]), _pick(rng, ["0.5", "0.25", "1.25"])
+        p.tasks.append(f'task ssa "SSA" {{\n  effort {a}h\n  allocate {r}\n}}\ntask ssb "SSB" {{\n  effort {b}h\n  allocate {r}\n  depends ssa\n}}\ntask ssc "SSC" {{\n  effort {c}h\n  allocate {r}\n  depends ssb\n}}')
+        p.tags.add("subslot")
     if opts["alap"]:
         p.tags.add("alap")
     # comments
